@@ -106,6 +106,11 @@ func c08Impl(in []int64) []int64 {
 		}
 		dst := mem[a : a+b : a+b]
 		src := mem[c : c+d : c+d]
+		if (a+c+int64(len(mem)))%2 == 0 {
+			// a sub-slice as a caller would pass it: the capacity reaches to the end of the backing array (an
+			// `append(src, ...)` inside the helper then writes behind the plaintext; the whole array is compared)
+			src = mem[c : c+d]
+		}
 		key, x3, x4 := exact(ToBytes(l2)), exact(ToBytes(l3)), exact(ToBytes(l4))
 		// The key buffer is one that has just been used with ANOTHER key of the same length: the helpers are called
 		// with the complemented key first (scratch data), then the buffer is overwritten in place with the case's
